@@ -7,7 +7,10 @@ C05 — the property as an executable predicate over what was OBSERVED of one ru
                     `WarmUp`, `Shoot`, `Close`) or schedule factory is still in progress at that moment (`busy=0`) -,
                     no goroutine of the run is left (`leak=0`)
   no swallowed err  `res=ok` only if no mock component of any pool returned an error or panicked in this run
-                    (unless the caller cancelled)
+                    (unless the caller cancelled); with one of the repo's own providers (`rp:<kind>.<k>.<tail>`) reading
+                    a source the harness wrote: `res=ok` never when that source is broken (cut short inside an ammo,
+                    malformed, unreadable, cannot be opened) after `k` ammo while the pool's schedules ask for more -
+                    judged from the INPUT alone, whatever the provider returned
   cause carried     `res=err:pK:…:<component>`: that component of pool K did fail in this run
   cancel            `res=ctx` only if the caller cancelled; a run cancelled before it was started never reports a
                     component failure; after a cancel Run returns promptly
@@ -44,6 +47,9 @@ structure PoolIn where
   fails : List (String × Nat) := []     -- newgun@k bind@k warmup sched@k panic@k
   real : Bool := false                  -- `rg:` the guns are made by a factory the repo registers
   blk : String := ""                    -- `blk:` the call of this pool that blocks and ignores every context
+  inst : Nat := 1
+  shots : Nat := 1
+  rp : Option (String × Nat × String) := none   -- `rp:<kind>.<k>.<tail>` the provider is one of the repo's own over a written source
   deriving Repr
 
 structure Plan where
@@ -107,6 +113,12 @@ def parsePool (spec : String) : PoolIn :=
     | ["fail", v] => if v == "-" then p else { p with fails := (v.splitOn "+").map parseFail }
     | ["rg", v] => { p with real := v != "-" }
     | ["blk", v] => { p with blk := if v == "-" then "" else v }
+    | ["inst", v] => { p with inst := v.toNat?.getD 0 }
+    | ["shots", v] => { p with shots := v.toNat?.getD 0 }
+    | ["rp", v] =>
+      match v.splitOn "." with
+      | [kind, k, tail] => { p with rp := some (kind, k.toNat?.getD 0, tail) }
+      | _ => p
     | _ => p) {}
 
 def parsePlan (input : String) : Option Plan := do
@@ -145,6 +157,23 @@ def occurred (_pl : Plan) (o : Obs) (i : Nat) : List String :=
 
 def anyError (pl : Plan) (o : Obs) : Option String :=
   ((List.range pl.pools.length).flatMap fun i => (occurred pl o i).map fun c => s!"p{i}.{c}").head?
+
+/-- how many ammo the schedules of the pool ask for -/
+def PoolIn.demand (p : PoolIn) : Nat := if p.per then p.inst * p.shots else (if p.inst == 0 then 0 else p.shots)
+
+/-- the ammo source of the pool is broken (cut short inside an ammo, malformed, unreadable, cannot be opened) at a place
+the run has to get to: after `k` complete ammo, while the schedules ask for more than `k` -/
+def brokenSource (pl : Plan) : Option String :=
+  ((List.range pl.pools.length).filterMap fun i =>
+    match pl.pools[i]? with
+    | some p =>
+      match p.rp with
+      | some (kind, k, tail) =>
+        if tail != "ok" && p.demand > k then
+          some s!"p{i}: its {kind} ammo source is broken ({tail}) after {k} ammo and its schedules ask for {p.demand}"
+        else none
+      | none => none
+    | none => none).head?
 
 /-- is the gun of this pool an `io.Closer`: the plan says so for mock guns, the observation for real ones -/
 def closableOf (p : PoolIn) (po : PoolObs) : Bool := if p.real then po.gcl.getD false else p.closable
@@ -244,7 +273,7 @@ def verdict (pl : Plan) (o : Obs) : String :=
   else if o.leak != 0 then s!"fail:goroutine-leak:{o.leak} goroutines left after Engine.Wait returned"
   else
     let swallowed : Option String :=
-      if o.res == "ok" && !o.canc then anyError pl o else none
+      if o.res == "ok" && !o.canc then (anyError pl o <|> brokenSource pl) else none
     match swallowed with
     | some e => s!"fail:swallowed-error:run succeeded although {e} failed"
     | none =>
